@@ -33,6 +33,10 @@ MODELS = {
     "shallowwater": (("shallowwater", 9.81), "shallowwater"), "euler1d": (("euler1d", 1.4), "euler1d"),
     "nozzle-bump": (("nozzle", "bump", 1.4), "euler1d"), "nozzle-lin": (("nozzle", "lin", 1.4), "euler1d"),
 }
+# secondary parameters (other gamma, g, convection speed): enumerated in the thorough tier
+EXTRA = {"euler1d-g5/3": (("euler1d", 5.0 / 3.0), "euler1d"), "euler1d-g1.1": (("euler1d", 1.1), "euler1d"),
+         "shallowwater-g1": (("shallowwater", 1.0), "shallowwater"), "convection-slow": (("convection", 1e-3), "convection")}
+MODELS.update(EXTRA)
 PAR = {"ptot": 3.0, "rttot": 1.5, "p": 0.9}
 
 
@@ -540,6 +544,8 @@ def run(ctx):
     recs = space.X1_ALL if th else space.X1_SHORT
     cfg = []
     for mname, (spec, kind) in MODELS.items():
+        if mname in EXTRA and not th:
+            continue
         model = space.make_model(spec)
         for flux in space.fluxes(model):
             for rname in recs:
